@@ -513,6 +513,7 @@ pub struct RunStats {
     pub truncated: u64,
     pub end_at_pause: u64,
     pub livelock: u64,
+    pub script_removals: u64,
 }
 
 pub struct RunObs {
@@ -555,6 +556,10 @@ pub trait Driven {
     fn feed(&self, q: &markup5ever::buffer_queue::BufferQueue) -> (FeedRes, Option<Id>);
     fn end(&self);
     fn collect(&self, extra_roots: &[Id]) -> usize;
+    /// the script detaches one attached element chosen by `selector`; false if nothing was removed
+    fn script_remove(&self, _selector: u32) -> bool {
+        false
+    }
 }
 
 struct TokDriven {
@@ -598,6 +603,9 @@ impl Driven for TreeDriven {
         let roots = tracer.roots.into_inner();
         self.tok.sink.inner.sink.collect(&roots)
     }
+    fn script_remove(&self, selector: u32) -> bool {
+        self.tok.sink.inner.sink.script_remove(selector)
+    }
 }
 
 pub fn drive<D: Driven>(
@@ -618,7 +626,6 @@ pub fn drive<D: Driven>(
     let mut next_chunk = 0usize;
     let mut suspension = 0usize;
     let mut pause_ord = 0usize;
-    let mut held: Vec<Id> = vec![];
     let mut ended_early = false;
     let max_feeds = 4 * (chunks.len() + input.len() + 64);
 
@@ -648,9 +655,12 @@ pub fn drive<D: Driven>(
             }
             let (res, handle) = d.feed(&probe.queue);
             feed_results.push(res.clone());
-            // ---- a suspension point
-            if sched.collect_at.contains(&suspension) {
-                held.clear();
+            // ---- a suspension point.  At a script pause the script runs first (it may edit
+            // the DOM and write to the input); the collection, if scheduled, comes after it.
+            let do_collect = sched.collect_at.contains(&suspension);
+            suspension += 1;
+            let collect_now = |stats: &mut RunStats, handle: Option<Id>| {
+                let mut held: Vec<Id> = vec![];
                 if let Some(h) = handle {
                     held.push(h);
                 }
@@ -658,10 +668,12 @@ pub fn drive<D: Driven>(
                 stats.collections += 1;
                 stats.collected_nodes += freed as u64;
                 stats.events += 1;
-            }
-            suspension += 1;
+            };
             match res {
                 FeedRes::Done => {
+                    if do_collect {
+                        collect_now(&mut stats, handle);
+                    }
                     if !probe.queue.is_empty() && queue_nonempty.is_none() {
                         queue_nonempty = Some(probe.unread_text());
                     }
@@ -688,6 +700,9 @@ pub fn drive<D: Driven>(
                         });
                         stats.end_at_pause += 1;
                         ended_early = true;
+                        if do_collect {
+                            collect_now(&mut stats, handle);
+                        }
                         break 'outer;
                     }
                     if let Some(act) = act {
@@ -697,6 +712,12 @@ pub fn drive<D: Driven>(
                             }
                         }
                         if is_script {
+                            for sel in &act.remove {
+                                if d.script_remove(*sel) {
+                                    stats.script_removals += 1;
+                                    stats.events += 1;
+                                }
+                            }
                             if let Some(w) = &act.inject {
                                 probe.inject_front(StrTendril::from_slice(w));
                                 stats.injections += 1;
@@ -704,6 +725,9 @@ pub fn drive<D: Driven>(
                                 injected = true;
                             }
                         }
+                    }
+                    if do_collect {
+                        collect_now(&mut stats, handle);
                     }
                     pauses.push(PauseObs {
                         kind: res.clone(),
